@@ -51,6 +51,7 @@ Inductive shape :=
 | ShWal                                (* store    pubd_objects/0/wal-N.json *)
 | ShWalSnapshot                        (* store    pubd_objects/0/snapshot.json *)
 | ShWalDelete                          (* delete   pubd_objects/0/wal-N.json *)
+| ShPubdCommand                        (* store    pubd/0/command-N.json (RepositoryAccess) *)
 | ShFs (o : fsop) (c : fscls)          (* repository directory *)
 | ShOther (store cls : N).
 
@@ -322,8 +323,46 @@ Definition rrdp_fs_trace (n_deltas : nat) (cleanup : list bool) : list shape :=
   ++ [ShFs FCreateFile CSnapshot; ShFs FWrite CSnapshot; ShFs FCreateFile CNotifNew; ShFs FWrite CNotifNew; ShFs FRename CNotif]
   (* clean-up of what the new notification file no longer references: old snapshot files, whole old serial directories *)
   ++ map (fun dir : bool => ShFs (if dir then FRemoveDir else FRemoveFile) CRrdpOther) cleanup.
-Definition rsync_fs_trace (n_files : nat) (has_current has_old : bool) : list shape :=
-  [ShFs FCreateDir CRsyncTmp] ++ concat (repeat [ShFs FCreateFile CRsyncFile; ShFs FWrite CRsyncFile] n_files)
+Definition rsync_fs_trace (n_files : nat) (has_current has_old has_tmp : bool) : list shape :=
+  (* e2447e97: a stale tmp-<serial> of an interrupted write of the same serial is removed first *)
+  (if has_tmp then [ShFs FRemoveDir CRsyncTmp] else [])
+  ++ [ShFs FCreateDir CRsyncTmp] ++ concat (repeat [ShFs FCreateFile CRsyncFile; ShFs FWrite CRsyncFile] n_files)
   ++ (if has_current then (if has_old then [ShFs FRemoveDir CRsyncOld] else []) ++ [ShFs FRename CRsyncCurrent] else [])
   ++ [ShFs FRename CRsyncTmp]
   ++ (if has_current || has_old then [ShFs FRemoveDir CRsyncOld] else []).
+
+(** * Operations that update TWO stores one after the other without a common transaction
+    (pubd/manager.rs:318-345: RepositoryAccess - an event-sourced aggregate - and RepositoryContent - the
+    change-set store). Each step is one atomic store; a step that finds its work done already either accepts
+    that (idempotent: "withdraw what the publisher has" with nothing left) or refuses the request ("Unknown
+    publisher", "Duplicate publisher"). A request is the two steps in order; the first refusal ends it. *)
+Record two := mkTwo { t_first : bool; t_second : bool }.          (* which step has been applied *)
+Record twoop := mkTwoOp { idem_first : bool; idem_second : bool }.
+Inductive tres := TOk (s : two) | TRefused (s : two).
+Definition two_step (idem done : bool) : option bool :=            (* None = refused *)
+  if done then (if idem then Some true else None) else Some true.
+(** Runs the request; [cut] = number of steps after which the process dies / the next store fails. *)
+Definition two_run (o : twoop) (cut : nat) (s : two) : tres :=
+  match cut with
+  | O => TOk s
+  | Datatypes.S c =>
+      match two_step (idem_first o) (t_first s) with
+      | None => TRefused s
+      | Some f =>
+          match c with
+          | O => TOk (mkTwo f (t_second s))
+          | Datatypes.S _ =>
+              match two_step (idem_second o) (t_second s) with
+              | None => TRefused (mkTwo f (t_second s))
+              | Some g => TOk (mkTwo f g)
+              end
+          end
+      end
+  end.
+Definition two_state (r : tres) : two := match r with TOk s | TRefused s => s end.
+Definition two_resubmit (o : twoop) (cut : nat) : tres := two_run o 2 (two_state (two_run o cut (mkTwo false false))).
+(** remove_publisher as it is (content first, its withdrawal is idempotent; the access removal is not), the
+    swapped order, and create_publisher (access first, "Duplicate publisher" on the second attempt). *)
+Definition remove_publisher_op : twoop := mkTwoOp true false.
+Definition remove_publisher_swapped : twoop := mkTwoOp false true.
+Definition create_publisher_op : twoop := mkTwoOp false false.
